@@ -79,13 +79,13 @@ CLAIMED.update({
 CLAIMED.update({
     "C17": (
         "Coq/Coquelicot proofs on formulas symbolically executed from coulomb.py each run (erf defined as an integral) + integral/interval translation validation",
-        "14 theorems on the terms regenerated from coulomb.py (masked NumPy statements symbolically executed over the r<threshold / r>=threshold "
+        "15 theorems on the terms regenerated from coulomb.py (masked NumPy statements symbolically executed over the r<threshold / r>=threshold "
         "partition): for all alpha>0, r>0 the s-type function satisfies the radial Poisson equation (rV)'' = -4 pi r rho for its documented "
         "density (first derivative computed by auto_derive, not typed by hand), the small-r values are the r->0 limits of the main branches, "
         "unnormalised variants differ by the documented factors (and that factor relates the two densities), superposition, every shipped "
         "parameter set well-formed (computed); far field: erf (DEFINED as 2/sqrt(pi) int_0^x e^(-t^2)) tends to 1 with 0 <= 1 - erf x <= 4/pi e^(-x^2) - the Gaussian "
         "integral is PROVED (differentiation under the integral sign, atan 1 = pi/4), hence r*V(r) -> total charge with explicit Gaussian bounds for s, "
-        "unnormalised s and p. p_poisson is REFUTED on the current code (p_poisson_refuted_lemma; known finding, the test "
+        "unnormalised s, p and unnormalised p. p_poisson is REFUTED on the current code (p_poisson_refuted_lemma; known finding, the test "
         "suite pins the wrong formula); its positive proof script is kept and was validated against the corrected formula.",
         "Trusted: Coq kernel; stdlib real axioms; the symbolic executor for coulomb_gaussian_s/p (validated by `integral`+`interval` enclosures "
         "each run); scipy erf accuracy; partial: continuity across the 1e-12 switch is a floating-point statement and is checked on the "
